@@ -284,6 +284,55 @@ def _report(ctx, c, bad):
                    key=b["key"])
 
 
+def many_sinks_part(ctx):
+    """clauses NetDef / NetOneDirection / Conservation / NoInflowIntoSources / NoOutflowFromSinks / source outflow =
+    sink inflow of LineFlux.tla on the chain of c07.many_sinks_case() (5200 states, 3333 sinks): no exact expectation at
+    this size, the clauses are evaluated in floating point on what the real code returns"""
+    from enspara import tpt
+    from props import c07
+    c = c07.many_sinks_case("flux")
+    n = c["n"]
+    c["w"] = [c["wpat"][k % len(c["wpat"])] for k in range(n)]
+    c["s"] = [c["spat"][k % len(c["spat"])] for k in range(n)]
+    T = line_matrix(c)
+    w, s_ = np.array(c["w"][:n - 1], dtype=float), np.array(c["s"], dtype=float)
+    den = s_.copy()
+    den[:-1] += w
+    den[1:] += w
+    pi = den / den.sum()
+    src = sorted(x - 1 for x in c["src"])
+    snk = sorted(x - 1 for x in c["snk"])
+    inter = np.setdiff1d(np.arange(n), src + snk)
+    with single_thread():
+        ctx.case(("many-sinks", "dense"))
+        ctx.traces += 1
+        try:
+            F = np.asarray(tpt.reactive_fluxes(T, src, snk, populations=pi), dtype=float)
+            Nf = np.asarray(tpt.net_fluxes(T, src, snk, populations=pi), dtype=float)
+        except Exception as ex:
+            _violation(ctx, {"kind": "replay", "call": "reactive_fluxes / net_fluxes (%d states, %d sinks)" % (n, len(snk)),
+                             "detail": "raised %s: %s" % (type(ex).__name__, str(ex)[:200])}, key="net_fluxes/dense/many-sinks/raised")
+            return
+    total = Nf[src].sum()
+    scale = max(total, 1e-300)
+    out_, in_ = Nf.sum(axis=1), Nf.sum(axis=0)
+    checks = {"NetDef": np.abs(Nf - np.maximum(F - F.T, 0)).max() / scale,
+              "NetOneDirection": np.minimum(Nf, Nf.T).max() / scale,
+              "Conservation": np.abs(out_[inter] - in_[inter]).max() / scale,
+              "NoInflowIntoSources": np.abs(in_[src]).max() / scale,
+              "NoOutflowFromSinks": np.abs(out_[snk]).max() / scale,
+              "SourceOutflowIsSinkInflow": abs(total - in_[snk].sum()) / scale,
+              "SomeFlux": 0.0 if total > 0 else 1.0}
+    for name, dev in checks.items():
+        if not dev <= 1e-9:
+            _violation(ctx, {"kind": "replay", "call": "net_fluxes / reactive_fluxes", "clause": name,
+                             "deviation_relative_to_total_flux": float(dev), "total_flux": float(total),
+                             "chain": "c07.many_sinks_case(): %d states on a line, sources 1..5, %d sinks" % (n, len(snk)),
+                             "how": "LineFlux.tla clause evaluated in floating point on the returned matrices"},
+                       key="net_fluxes/dense/many-sinks/%s" % name)
+    ctx.notes["many_sinks_case"] = {"states": n, "sinks": len(snk), "total_flux": float(total)}
+
+
 def run(ctx):
     ctx.rule = ("TLC enumerates every connected symmetric integer matrix with entries 0..MaxX (self-weights "
                 "included) on N states x every disjoint non-empty source/sink pair; each case is replayed with "
@@ -337,6 +386,7 @@ def run(ctx):
     ctx.notes["replayed_line_cases"] = _replay_line_results(ctx, line_results, ljobs, replay_fn=replay_line_flux_case,
                                                            report=_report_line)
     ctx.notes["wall_s_line_replay"] = round(time.time() - t1, 1)
+    many_sinks_part(ctx)
     t1 = time.time()
     ncases, kinds, undefined = 0, {}, 0
     for r, j, sc in zip(results, jobs, scs):
